@@ -356,7 +356,7 @@ func (p *Path) bigLsh(x *Term, n *Term) *Term {
 	if n.S.W > w {
 		panic(p.abort("shift amount wider than big width"))
 	}
-	r := tt.BVShl(x, amt)
+	r := p.lshWide(x, n, amt) // bignonneg.go
 	p.widthOK(w, func() *Term {
 		if bx := p.bound(x); bx < w-1 {
 			return tt.ULe(amt, BVConstU(uint64(w-1-bx), w))
@@ -497,6 +497,20 @@ func (p *Path) bigFromBytes(bs []*Term) *Term {
 			return cat.Args[0]
 		}
 		r := tt.ZExt(cat, w)
+		p.setBound(r, cat.S.W)
+		return r
+	}
+	if cat.Op == OpApp && strings.Contains(cat.Name, ".nat_") {
+		// opt-in by UF name (vs.UF("<name>.nat", ...)): the unsigned value of the
+		// whole result is a companion Int-valued uninterpreted function of the same
+		// arguments, in [0, 2^w).  The link between the result's bytes and this
+		// value is dropped (over-approximation: every real behaviour remains a
+		// model; bv2nat of a wide UF result next to nonlinear Int arithmetic makes
+		// z3 give up).
+		r := tt.App(cat.Name+"$int", IntSort, cat.Args...)
+		p.hr.noteUF(cat.Name + "$int")
+		p.assertPC(tt.ILe(IConstI(0), r))
+		p.assertPC(tt.ILt(r, IConst(pow2(cat.S.W))))
 		p.setBound(r, cat.S.W)
 		return r
 	}
